@@ -356,6 +356,18 @@ func (s Emitter) formatMapLiteral(output io.Writer, mapLiteral cypher.MapLiteral
 	return nil
 }
 
+// formatFloatLiteral writes a floating point value so that it reads back as a floating point literal: integral values keep a
+// fractional part (1.0, not 1).
+func formatFloatLiteral(value float64) string {
+	formatted := strconv.FormatFloat(value, 'f', -1, 64)
+
+	if !strings.ContainsAny(formatted, ".eEIN") {
+		formatted += ".0"
+	}
+
+	return formatted
+}
+
 func (s Emitter) formatLiteral(output io.Writer, literal *cypher.Literal) error {
 	const literalNullToken = "null"
 
@@ -430,12 +442,12 @@ func (s Emitter) formatLiteral(output io.Writer, literal *cypher.Literal) error 
 		}
 
 	case float32:
-		if _, err := io.WriteString(output, strconv.FormatFloat(float64(typedLiteral), 'f', -1, 64)); err != nil {
+		if _, err := io.WriteString(output, formatFloatLiteral(float64(typedLiteral))); err != nil {
 			return err
 		}
 
 	case float64:
-		if _, err := io.WriteString(output, strconv.FormatFloat(typedLiteral, 'f', -1, 64)); err != nil {
+		if _, err := io.WriteString(output, formatFloatLiteral(typedLiteral)); err != nil {
 			return err
 		}
 
